@@ -9,6 +9,11 @@ NOTES = {
     "C01_b": "first evaluation: C02 concrete, C01 only 'no-failing-input-found'; the C01 history clause drop:within_flush_budget was added - now concrete for C01 too",
     "C06_c": "first evaluation: NOT detected (a record/collect race window a few instructions wide; the real-thread RACE cases never hit it); C06 now runs SRACE cases under the deterministic scheduler shim with the schedule as an input (harness/c06_sched_driver.cc, coq/C06/SpecSched.v, commit f607e64) - caught with a replayable schedule",
     "C05_c": "first evaluation: NOT detected (the driver only used scripted id generators); C05 now also drives the default RandomIdGenerator from several threads and checks freshness/parentage on an abstraction of the ids - caught with a concrete case",
+    "C02_e": "first evaluation: only 'no-failing-input-found' (the run-away trace of a ForceFlush that never returns overflowed the extracted model's stack, and no schedule stalled the caller between its entry test and its ticket); fixed: unlimited stack for the model driver, capped step-limit traces, 'stall' schedule family - now concrete (terminate:crash_or_deadlock)",
+    "C02_f": "as C02_e (exporter ForceFlush failing -> ticket never published -> ForceFlush/Shutdown never return): concrete after the same changes",
+    "C18_c": "first evaluation: NOT detected (provider cases only looked at batches with data); C18 now collects empty batches too and checks resource_ on every callback (NULLRES token) - caught",
+    "C19_d": "first evaluation: NOT detected (sequential cases only); C19 now runs PRACE cases (2-3 threads of GetTracer/GetMeter/GetLogger under the scheduler shim, commit 269fc39) - caught with a replayable schedule",
+    "C10_e": "first evaluation: NOT detected (the driver kept every Context alive and ASan's quarantine prevents address reuse); C10 now has stale-token histories on temporaries, run on a sanitizer-free driver variant as well - caught",
     "C01_a": "the change is in CircularBuffer::Add: caught by C11 (ring under the shim); C01 runs use the queue as an atomic FIFO (one scheduling point per queue call) by design and cannot see it",
 }
 rows = []
